@@ -285,7 +285,7 @@ def collect(ctx, n_ir, _unused=0):
 
 def run(ctx):
     status = coqbuild.prove("C04", THEOREMS)
-    agg, items, corr, irs = collect(ctx, 50 if ctx.quick else 700)
+    agg, items, corr, irs = collect(ctx, 50 if ctx.quick else 2100)
     for cls, det, ir in items:
         ctx.item(cls, {"stage": "exec() of the emitted source in a scratch namespace", "clause": cls, "input": T.jsonable(ir) if ir else None,
                        "detail": det})
